@@ -120,7 +120,7 @@ UNITS = {
         "contracts": ["contracts/request.vc", "contracts/header.vc", "contracts/response.vc", "contracts/app.vc", "contracts/server.vc"],
     },
     "request_parse": {
-        "preludes": ["shims/core.rs", "shims/bytes.rs", "shims/io.rs", "shims/cursor.rs"],
+        "preludes": ["shims/core.rs", "shims/bytes.rs", "shims/io.rs", "shims/cursor.rs", "shims/ctl.rs"],
         "specs": ["contracts/spec/hv.rs", "contracts/spec/lookup.rs", "contracts/spec/crlf.rs", "contracts/spec/request.rs", "contracts/spec/lines.rs", "contracts/spec/request_read.rs", "contracts/spec/request_gen.rs", "contracts/spec/request_thm.rs", "contracts/spec/names_request.rs"],
         "sources": [
             SYMBOL_SRC,
@@ -265,12 +265,12 @@ UNITS = {
         "contracts": ["contracts/request.vc", "contracts/server.vc", "contracts/app.vc", "contracts/forms.vc"],
     },
     "response_parse": {
-        "preludes": ["shims/core.rs", "shims/bytes.rs", "shims/cursor.rs"],
+        "preludes": ["shims/core.rs", "shims/bytes.rs", "shims/cursor.rs", "shims/ctl.rs"],
         "specs": ["contracts/spec/hv.rs", "contracts/spec/frames.rs", "contracts/spec/crlf.rs", "contracts/spec/request.rs", "contracts/spec/response_parse.rs", "contracts/spec/lines.rs", "contracts/spec/response_read.rs", "contracts/spec/http.rs", "contracts/spec/response_thm.rs", "contracts/spec/names_status.rs"],
         "sources": [
             SYMBOL_SRC,
             ("src/http/mod.rs", ["struct:Version", "const:VERSION", "struct:HTTP", "fn:HTTP::version_list:assume"]),
-            ("src/ext/string_ext/mod.rs", ["struct:StringExt", "fn:StringExt::truncate_new_line_carriage_return:assume"]),
+            ("src/ext/string_ext/mod.rs", ["struct:StringExt", "fn:StringExt::truncate_new_line_carriage_return"]),
             ("src/mime_type/mod.rs", ["struct:MimeType", "consts:MimeType"]),
             ("src/header/mod.rs", ["struct:Header", "consts:Header"]),
             ("src/request/mod.rs", ["struct:Method", "const:METHOD"]),
@@ -396,6 +396,9 @@ def owner(unit, f):
         return ("C14", "C11", "C09", "C03")
     if f.fn.startswith("URL::is_path_inside_root") and f.kind == "postcondition" and f.snippet.replace(" ", "").startswith("inside(path@)==>res"):
         return "C02"        # the guard refuses a path that stays inside: files are not served (C02), containment (C01) is intact
+    # a call of a function that creates / deletes / alters files (declared `requires false`): C13, whatever the unit
+    if f.kind == "precondition" and f.snippet.startswith("false@"):
+        return "C13"
     if any(w in f.snippet for w in CONTAINMENT_WORDS) or f.fn.startswith("URL::is_path_inside_root"):
         return "C01"
     if unit == "static":
@@ -435,6 +438,8 @@ def owner(unit, f):
         return ("C20", "C04") if f.kind in SAFETY_KINDS else "C16"
     if f.kind == "precondition" and f.snippet.startswith("false@"):
         return "C13"
+    if f.fn == "StringExt::truncate_new_line_carriage_return" and f.kind not in SAFETY_KINDS:
+        return ("C14", "C05", "C10", "C15", "C16")       # shared by the request, response and multipart header readers
     if "count_name" in f.snippet or "c10_names" in f.snippet or "not_a_grant_name" in f.snippet:
         return "C10"
     if unit == "defaults":
